@@ -11,7 +11,8 @@ from ..harness import Sub, Violation, run_world
 from ..oracles import globalarr as ga
 
 PROPERTY = "C01"
-HANG_SECONDS = 40.0
+HANG_SECONDS = 60.0
+LINE_BUDGET = 1000000000
 RULE = ("Hypothesis-generated LayoutHandler configurations (ndims 2-4, extents 1-9 biased to n=p, p+1, "
         "2p+-1, process grids of length 1-2 incl. leading 1, layout sets connected by construction or "
         "arbitrary subsets of S_n, float/complex/int payload = injective code of the global index, "
